@@ -29,8 +29,8 @@ def _b(ctx, x):
 def _segment_case(dim):
     n = dim + 1
 
-    @case("C16", "segment.contains.online.%dd" % dim, names("a", n) + names("b", n) + ["al", "be"], mode="real", functions=FSEG, timeout=120,
-          max_paths=64, also=("C03",), share=True)
+    @case("C16", "segment.contains.online.%dd" % dim, names("a", n) + names("b", n) + ["al", "be"], mode="real", functions=FSEG, timeout=120 if dim == 2 else 900,
+          max_paths=64, also=("C03",), share=True, tier="quick" if dim == 2 else "thorough")
     def _(ctx):
         """p = al*a + be*b on the line of a finite segment ab (arbitrary homogeneous representatives):
         contained  <=>  the affine parameter t = be*bz/(al*az+be*bz) lies in [0,1]"""
@@ -53,8 +53,8 @@ def _segment_case(dim):
             spec = (u * v >= -1e-12) and abs(u + v) > 1e-9
         ctx.ensure("contains<=>0<=t<=1", ctx.iff(_b(ctx, r), spec))
 
-    @case("C16", "segment.contains.offline.%dd" % dim, names("a", n) + names("b", n) + names("p", n), mode="real", functions=FSEG, timeout=120,
-          max_paths=64)
+    @case("C16", "segment.contains.offline.%dd" % dim, names("a", n) + names("b", n) + names("p", n), mode="real", functions=FSEG, timeout=120 if dim == 2 else 900,
+          max_paths=64, tier="quick" if dim == 2 else "thorough")
     def _(ctx):
         geometer, gs = _g()
         a, b, p = ctx.vec("a", n), ctx.vec("b", n), ctx.vec("p", n)
@@ -171,3 +171,74 @@ def lemma_segment_contract(ctx):
         lhs = ctx.conj([ctx.neg(ctx.zero(pz)), n1 >= 0, n2 >= 0])
         rhs = ctx.conj([u * v >= 0, ctx.neg(ctx.zero(u + v))])
         ctx.ensure("stub-formula<=>parametric-contract", ctx.iff(lhs, rhs))
+
+
+def _pip_oracle(vs, p, eps=1e-9):
+    """closed region of a simple polygon: boundary test, then even-odd crossing number (exact enough on half-integer lattices)"""
+    n = len(vs)
+    x, y = p
+    for i in range(n):
+        (x1, y1), (x2, y2) = vs[i], vs[(i + 1) % n]
+        cr = (x2 - x1) * (y - y1) - (y2 - y1) * (x - x1)
+        if abs(cr) < eps and min(x1, x2) - eps <= x <= max(x1, x2) + eps and min(y1, y2) - eps <= y <= max(y1, y2) + eps:
+            return True
+    inside = False
+    for i in range(n):
+        (x1, y1), (x2, y2) = vs[i], vs[(i + 1) % n]
+        if (y1 > y) != (y2 > y):
+            xi = x1 + (y - y1) * (x2 - x1) / (y2 - y1)
+            if xi > x:
+                inside = not inside
+    return inside
+
+
+@case("C16", "polygon.contains.lattice", [], kind="bounded", functions=["geometer.shapes.PolygonTensor.contains", "geometer.shapes.Triangle.contains"],
+      bound="6 simple lattice polygons (convex, dart, L, triangle, quad, zig-zag) x 15x15 half-integer query grid (single points and one PointCollection per row), "
+            "start-vertex rotations and reversal; 3D: the same polygons under 5 rigid motions with on-plane and off-plane queries, single and as collections")
+def polygon_contains_lattice(ctx):
+    import geometer as g
+    from geometer.shapes import Polygon, Triangle
+    from geometer.transformation import rotation, translation
+
+    polys = [
+        [(0, 0), (4, 0), (4, 4), (2, 1), (0, 4)],
+        [(0, 0), (4, 0), (4, 3), (0, 3)],
+        [(0, 0), (4, 0), (4, 2), (2, 2), (2, 4), (0, 4)],
+        [(0, 0), (4, 1), (1, 4)],
+        [(1, 0), (4, 2), (3, 4), (0, 3)],
+        [(0, 0), (5, 0), (5, 4), (4, 4), (4, 1), (3, 3), (2, 1), (1, 3), (0, 1)],
+    ]
+    grid = [x / 2 for x in range(-2, 13)]
+    for vs in polys:
+        variants = [vs, vs[2:] + vs[:2], vs[::-1]]
+        for vi, vv in enumerate(variants):
+            P = Polygon(*[g.Point(*v) for v in vv])
+            for y in grid:
+                row = [(x, y) for x in grid]
+                want = [_pip_oracle(vs, q) for q in row]
+                got = P.contains(g.PointCollection([[x, yy, 1] for x, yy in row]))
+                for q, w_, g_ in zip(row, want, got):
+                    ctx.ensure("2d:collection-query==closed-region", bool(g_) == w_, witness=dict(polygon=vv, query=q, expected=w_, got=bool(g_)))
+                if vi == 0:
+                    for q, w_ in zip(row[::2], want[::2]):
+                        ctx.ensure("2d:single-query==closed-region", bool(P.contains(g.Point(*q))) == w_, witness=dict(polygon=vv, query=q, expected=w_))
+            if len(vv) == 3:
+                T = Triangle(*[g.Point(*v) for v in vv])
+                for q in [(x, y) for x in grid[::2] for y in grid[::2]]:
+                    ctx.ensure("2d:triangle==closed-region", bool(T.contains(g.Point(*q))) == _pip_oracle(vs, q), witness=dict(triangle=vv, query=q))
+        ctx.ensure("2d:point-at-infinity-not-contained", not bool(Polygon(*[g.Point(*v) for v in vs]).contains(g.Point([1, 1, 0]))), witness=dict(polygon=vs))
+    motions = [translation(0, 0, 0), translation(1, 2, 3), rotation(0.7, axis=g.Point(1, 0, 0)), rotation(1.1, axis=g.Point(1, 2, 3)) * translation(0, 0, 2),
+               translation(1, 1, 1) * rotation(-0.4, axis=g.Point(1, -1, 2))]
+    for vs in polys[:5]:
+        for mi, t in enumerate(motions):
+            P = t * Polygon(*[g.Point(x, y, 0) for x, y in vs])
+            qs, want = [], []
+            for (x, y) in [(1, 1), (3, 0.5), (2, 2), (-1, 1), (5, 5), (0.5, 3.5), (4, 4), (2, 1)]:
+                for h in (0, 0, 0.5, -1):
+                    qs.append((t * g.Point(x, y, h)).array)
+                    want.append(_pip_oracle(vs, (x, y)) and h == 0)
+            got = P.contains(g.PointCollection(np.array(qs)))
+            for k in range(len(qs)):
+                ctx.ensure("3d:collection-query==closed-region-in-the-plane", bool(got[k]) == want[k], witness=dict(polygon=vs, motion=mi, k=k, expected=want[k], got=bool(got[k])))
+            for k in range(0, len(qs), 3):
+                ctx.ensure("3d:single-query==closed-region-in-the-plane", bool(P.contains(g.Point(qs[k]))) == want[k], witness=dict(polygon=vs, motion=mi, k=k, expected=want[k]))
